@@ -28,6 +28,11 @@
 #include <sys/resource.h>
 #include <fcntl.h>
 
+// default (empty) implementation of the guarded source hook SPX_VERIF_POINT; the C18 harness overrides it
+#ifndef VX_OWN_VERIF_POINT
+extern "C" __attribute__((weak)) void soplex_verif_point(const char*) {}
+#endif
+
 namespace vx
 {
 
